@@ -24,24 +24,50 @@ func init() { register("C20", checkC20) }
 
 const relObjCache = "internal/storage/middlewares/objectcache"
 
-func checkC20(w *World, r *Run) {
+type c20Ctx struct {
+	iface      *types.Interface
+	T          *types.Named
+	mat        map[string]override
+	invalidate *types.Func
+}
+
+// c20Context resolves the anchors shared by the object-cache rules.
+func c20Context(w *World, r *Run) *c20Ctx {
 	iface := checkStorageTable(w, r)
 	T := w.Named(relObjCache, "objectCacheStorageMiddleware")
 	if iface == nil || T == nil {
 		r.Rule("c20-anchor", "F2", "anchors resolve", 0)
 		r.Anchor("c20-anchor", relObjCache+".objectCacheStorageMiddleware")
+		return nil
+	}
+	invalidate := w.Func(relObjCache, "objectCacheStorageMiddleware.invalidateObjectCaches")
+	if invalidate == nil {
+		r.Rule("c20-anchor", "F2", "anchors resolve", 0)
+		r.Anchor("c20-anchor", "objectCacheStorageMiddleware.invalidateObjectCaches")
+		return nil
+	}
+	return &c20Ctx{iface: iface, T: T, mat: overrideMatrix(T, iface), invalidate: invalidate}
+}
+
+func checkC20(w *World, r *Run) {
+	c := c20Context(w, r)
+	if c == nil {
 		return
 	}
+	checkCacheMutators(w, r, c)
+	checkCacheBypass(w, r, c)
+	checkCacheEarlyFill(w, r, c)
+	r.NotCovered("races between a concurrent cache fill and an invalidation (schedules)")
+	r.NotCovered("that the cached bytes equal the stored bytes (runtime values)")
+}
+
+// checkCacheMutators: the object cache sees every mutation and drops both entries of the key (also used by C01).
+func checkCacheMutators(w *World, r *Run, c *c20Ctx) {
 	ruleOv := r.Rule("cache-overrides-mutators", "F2",
 		"every mutates_object method of storage.Storage is implemented by *objectCacheStorageMiddleware itself; an inherited method forwards to the inner storage without touching the cache, so cached heads/bodies go stale", 9)
 	ruleInv := r.Rule("cache-invalidate-after-inner", "F1",
 		"in every overriding mutator, each path from the inner call to a possibly-successful return passes invalidateObjectCaches(ctx,<dst bucket>,<dst key>) (or the PutObject refresh idiom / the DeleteObjects per-entry idiom)", 8)
-	mat := overrideMatrix(T, iface)
-	invalidate := w.Func(relObjCache, "objectCacheStorageMiddleware.invalidateObjectCaches")
-	if invalidate == nil {
-		r.Anchor(ruleInv, "objectCacheStorageMiddleware.invalidateObjectCaches")
-		return
-	}
+	T, mat, invalidate := c.T, c.mat, c.invalidate
 	for _, m := range methodsOfClass(mObject) {
 		o, ok := mat[m]
 		cons := "(*objectCacheStorageMiddleware)." + m
@@ -56,20 +82,6 @@ func checkC20(w *World, r *Run) {
 		r.OK(ruleOv, cons, o.Func.Pos(), "own implementation")
 		fn := w.Prog.FuncValue(o.Func)
 		checkC20Invalidate(w, r, ruleInv, cons, m, fn, invalidate)
-	}
-
-	// 3. bypass of versioned / ranged reads
-	ruleBy := r.Rule("cache-bypass-versioned-ranged", "F1",
-		"HeadObject/GetObject consult the cache only when no VersionID (and, for GetObject, no range) was requested: every cache read is dominated by the edge on which opts.VersionID is nil / len(ranges)==0", 2)
-	for _, m := range []string{"HeadObject", "GetObject"} {
-		o := mat[m]
-		cons := "(*objectCacheStorageMiddleware)." + m
-		if !o.Own {
-			r.Bad(ruleBy, cons, T.Obj().Pos(), "read method not overridden (cache unused) — rule anchor lost")
-			continue
-		}
-		fn := w.Prog.FuncValue(o.Func)
-		checkC20Bypass(w, r, ruleBy, cons, m, fn)
 	}
 
 	// 4. invalidate removes both keys
@@ -94,8 +106,97 @@ func checkC20(w *World, r *Run) {
 		}
 		r.Check(found, ruleBoth, "invalidateObjectCaches removes "+keyFn+"(bucket,key)", invalidate.Pos(), "cache.Remove("+keyFn+"(bucketName,key))", "no cache.Remove of "+keyFn+"(bucketName,key): that entry survives a mutation")
 	}
-	r.NotCovered("races between a concurrent cache fill and an invalidation (schedules)")
-	r.NotCovered("that the cached bytes equal the stored bytes (runtime values)")
+}
+
+func checkCacheBypass(w *World, r *Run, c *c20Ctx) {
+	T, mat := c.T, c.mat
+	// 3. bypass of versioned / ranged reads
+	ruleBy := r.Rule("cache-bypass-versioned-ranged", "F1",
+		"HeadObject/GetObject consult the cache only when no VersionID (and, for GetObject, no range) was requested: every cache read is dominated by the edge on which opts.VersionID is nil / len(ranges)==0", 2)
+	for _, m := range []string{"HeadObject", "GetObject"} {
+		o := mat[m]
+		cons := "(*objectCacheStorageMiddleware)." + m
+		if !o.Own {
+			r.Bad(ruleBy, cons, T.Obj().Pos(), "read method not overridden (cache unused) — rule anchor lost")
+			continue
+		}
+		fn := w.Prog.FuncValue(o.Func)
+		checkC20Bypass(w, r, ruleBy, cons, m, fn)
+	}
+
+}
+
+// checkCacheEarlyFill: a failed write leaves nothing in the cache (also used by C03).
+func checkCacheEarlyFill(w *World, r *Run, c *c20Ctx) {
+	mat, invalidate := c.mat, c.invalidate
+	// 5. a mutator that starts filling the cache before the inner call returns must
+	// invalidate when the inner call fails: the rejected bytes may already be cached
+	ruleEarly := r.Rule("early-cache-fill-is-undone-on-failure", "F1",
+		"a mutator that starts cache.Set (directly or in a goroutine) before its inner call passes invalidateObjectCaches on every path from the inner call's error edge to a return", 1)
+	for m, o := range mat {
+		if !o.Own || storageMethods[m] != mObject {
+			continue
+		}
+		fn := w.Prog.FuncValue(o.Func)
+		if fn == nil {
+			continue
+		}
+		var inner *ssa.Call
+		allInstrs(fn, false, func(_ *ssa.Function, ins ssa.Instruction) {
+			if c, ok := ins.(*ssa.Call); ok && c.Call.IsInvoke() && c.Call.Method.Name() == m {
+				if n, _ := fieldLoadName(c.Call.Value); n == "Next" {
+					inner = c
+				}
+			}
+		})
+		if inner == nil {
+			continue
+		}
+		early := false
+		allInstrs(fn, false, func(_ *ssa.Function, ins ssa.Instruction) {
+			var body *ssa.Function
+			switch x := ins.(type) {
+			case *ssa.Go:
+				if mc, ok := x.Call.Value.(*ssa.MakeClosure); ok {
+					body, _ = mc.Fn.(*ssa.Function)
+				}
+			case *ssa.Call:
+				if x.Call.IsInvoke() && x.Call.Method.Name() == "Set" && instrDominates(x, inner) {
+					early = true
+				}
+			}
+			if body != nil && instrDominates(ins, inner) {
+				allInstrs(body, true, func(_ *ssa.Function, i2 ssa.Instruction) {
+					if c, ok := i2.(*ssa.Call); ok && c.Call.IsInvoke() && c.Call.Method.Name() == "Set" {
+						early = true
+					}
+				})
+			}
+		})
+		if !early {
+			continue
+		}
+		cons := "(*objectCacheStorageMiddleware)." + m + " undoes its early cache fill when the inner call fails"
+		isInv := func(i ssa.Instruction) bool {
+			c, ok := i.(ssa.CallInstruction)
+			return ok && calleeObj(c) == invalidate
+		}
+		leak := true
+		for _, b := range fn.Blocks {
+			for k := range b.Succs {
+				if len(b.Succs) != 2 {
+					continue
+				}
+				for _, f := range edgeFacts(b, k) {
+					if f.Kind == NonNil && sliceContains(f.Val, false, func(x ssa.Value) bool { return x == ssa.Value(inner) }) {
+						first := b.Succs[k].Instrs[0]
+						leak = !isInv(first) && len(sinksReachable(first, isInv, nil, func(i ssa.Instruction) bool { _, isRet := i.(*ssa.Return); return isRet })) > 0
+					}
+				}
+			}
+		}
+		r.Check(!leak, ruleEarly, cons, posOf(inner), "error edge → invalidateObjectCaches → return", "the cache is being filled while the inner call runs, and when that call fails after consuming the whole body the rejected bytes stay cached under the key (served with the old head entry): a failed write leaves a visible trace")
+	}
 }
 
 // dstArgIdx gives, for each mutator, the positions of destination bucket and key among the
@@ -293,4 +394,3 @@ func checkC20Bypass(w *World, r *Run, rule, cons, method string, fn *ssa.Functio
 	}
 	r.OK(rule, cons, fn.Pos(), "every cache access is reached only with opts==nil/opts.VersionID==nil"+map[bool]string{true: " and len(ranges)==0", false: ""}[method == "GetObject"])
 }
-
